@@ -73,7 +73,10 @@ CHECKS = {
         text="Kernel-checked: the log of transport writes and hand-ups equals, over the accepted frames in stream "
              "order, nothing for ACKs and [ACK(own seq), deliver] for data frames; the ACK written is the "
              "well-formed ACK of C05. Tied by comparing the real receiver's interleaved log with the model and with "
-             "the theorem's shape computed from the Lean parse, with raising handlers.",
+             "the theorem's shape computed from the Lean parse, with raising handlers. The shape holds in every link state "
+             "(C06_log_shape_any_state); after close() and connection_made() on the same object the log is a fresh receiver's "
+             "(C06_reopened_port), closed nothing is written - checked on the implementation against a fresh real receiver, "
+             "with data frames of every number before and after and bodies longer than 247 bytes.",
         note="handler does not re-enter the protocol object",
         design="7/C06"),
     "C07": dict(
